@@ -93,7 +93,8 @@ def _print_Piecewise(
         # Keep the simplification only if it is still a Piecewise: e.g.
         # Piecewise((x, Eq(x, y)), (y, True)) simplifies to the plain symbol y,
         # which has no (expr, cond) pairs to print
-        if isinstance(simplified, sympy.Piecewise):
+        # and ends with the unconditional branch that the printers require
+        if isinstance(simplified, sympy.Piecewise) and simplified.args[-1].cond == True:  # noqa: E712
             expr = simplified
     except Exception:
         # Simplification is only cosmetic. sympy fails on some conditions that
